@@ -5,7 +5,6 @@ package dtls
 import (
 	"fmt"
 	"os"
-	"runtime"
 	"testing"
 	"testing/synctest"
 	"time"
@@ -16,14 +15,30 @@ func TestVF_Debug(t *testing.T) {
 	if os.Getenv("VERIF_DEBUG") == "" {
 		t.Skip("debug only")
 	}
+	vfGetPKI()
 	synctest.Test(t, func(t *testing.T) {
-		ch := make(chan int)
-		go func() { <-ch }()
-		go func() { time.Sleep(time.Hour) }()
+		cfg := vfBaseCfg(vfSuiteByName("ECDSA-GCM128"), "ecdsa")
+		co, so := cfg.Options(nil, nil)
+		n := vfNewNet()
+		p, err := vfNewPair(n, co, so)
+		if err != nil {
+			t.Fatal(err)
+		}
+		ce, se := p.Handshake(time.Minute)
+		fmt.Println("handshake", ce, se)
+		p.C.StartPump()
+		p.S.StartPump()
+		fmt.Println("rt0:", vfRoundTrip(p, "a", time.Minute))
+		for e := 1; e <= 65535; e++ {
+			rec := []byte{20, 0xfe, 0xfd, byte(e >> 8), byte(e), 0, 0, 0, 1, byte(e >> 8), byte(e), 0, 1, 1}
+			n.Deliver(vfServerAddr, rec, vfAddr(vfClientAddr))
+			if e%1000 == 0 {
+				synctest.Wait()
+			}
+		}
 		synctest.Wait()
-		buf := make([]byte, 1<<16)
-		n := runtime.Stack(buf, true)
-		fmt.Println(string(buf[:n]))
-		close(ch)
+		fmt.Println("server remote epoch:", vfCommon(p.S.Conn).RemoteEpoch())
+		fmt.Println("rt1:", vfRoundTrip(p, "b", time.Minute))
+		p.Close()
 	})
 }
